@@ -2,7 +2,7 @@
 
 M  mc/MC_Registration       on Registration.tla alone: for every address h with a registration,
                             AddrOf(RegOf(h)) = h (left inverse => injective) and h lies in the ICAO
-                            block of the State owning the nationality mark.  quick: every 64th
+                            block of the State owning the nationality mark.  quick: every 16th
                             4096-chunk + every chunk with a rule edge; thorough: all 2^24 addresses.
                             A spec mutant (overlapping D-A ranges) must be refuted.
 G  gen/Gen_Registration     the intervals around every rule edge that are sampled densely.
@@ -124,7 +124,7 @@ def check(run, probe_values=None):
         k = 32
         mc_jobs = [(i * NCHUNK // k, (i + 1) * NCHUNK // k - 1, 1, i == 0) for i in range(k)]
     else:
-        mc_jobs = [(i * 1024, i * 1024 + 1023, 64, False) for i in range(4)]
+        mc_jobs = [(i * 1024, i * 1024 + 1023, 16, False) for i in range(4)]
     tmo = 3000 if thorough else 900
     with cf.ThreadPoolExecutor(max_workers=par) as ex:
         # the mutant first: it must fail fast
@@ -150,7 +150,7 @@ def check(run, probe_values=None):
 
     # V
     n_events = n_dev = 0
-    dev_samples = []
+    dev_samples, dev_values, dev_by_lead = [], set(), {}
     counts = {"t_some": 0, "t_none": 0, "t_panic": 0, "run": 0, "oor": 0, "s": 0}
     sweep_some = 0
     for res in vres:
@@ -165,9 +165,14 @@ def check(run, probe_values=None):
         if res["rejected"]:
             _report(run, res, lines)
         for i in res["dev"]:
+            ev = json.loads(lines[i - 1])
             n_dev += 1
-            if len(dev_samples) < 10:
-                dev_samples.append({"file": base, "index": i, "event": json.loads(lines[i - 1])})
+            dev_values.add(_value(ev))
+            lead = _lead(ev.get("reg", [])) or ev["e"]
+            dev_by_lead[lead] = dev_by_lead.get(lead, 0) + 1
+            if len(dev_samples) < 6 and i % 7 == 0:
+                dev_samples.append({"file": base, "index": i, "value": _value(ev), "e": ev["e"],
+                                    "returned": _text(ev.get("reg", []))})
         is_sweep = base.startswith("w.")
         with open(res["path"]) as f:
             for line in f:
@@ -201,16 +206,20 @@ def check(run, probe_values=None):
         if sweep_some != summ["some"]:
             raise core.ToolError("sweep and sorted dump disagree on the number of registrations")
     if n_dev:
-        core.log(f"C14: {n_dev} event(s) deviate from the allocation schemes of Registration.tla "
-                 f"(not a verdict); first: {dev_samples[:2]}")
+        core.log(f"C14: {n_dev} event(s) at {len(dev_values)} address(es) deviate from the allocation schemes of "
+                 f"Registration.tla without breaking C14 (not a verdict); by leading text {dev_by_lead}; "
+                 f"e.g. {dev_samples[:2]}")
 
     a0 = _lines(os.path.join(work, summ["a_files"][0]["file"]))
     b0 = _lines(os.path.join(work, summ["b_files"][0]["file"])) if summ["b_files"] else []
-    samples = [json.loads(a0[len(a0) // 2])]
-    samples += [json.loads(b0[len(b0) // 3])] if b0 else []
+    samples = []
+    for ln in [a0[len(a0) // 2], a0[len(a0) // 5]] + ([b0[len(b0) // 3]] if b0 else []):
+        ev = json.loads(ln)
+        ev["text"] = _text(ev.get("reg", []))
+        samples.append(ev)
     samples += [{"file": os.path.basename(vres[0]["path"]), "events": vres[0]["n"]}]
     run.cov.update({
-        "exhaustive": True,
+        "exhaustive": thorough,
         "exhaustive_scope": ("all 2^24 addresses: spec (M) and implementation in address order (V)" if thorough else
                              "implementation: every returned registration of all 2^24 addresses (sorted dump) and every "
                              "panic; spec (M) and None-conformance sampled"),
@@ -231,7 +240,8 @@ def check(run, probe_values=None):
         "mc_chunks_of_4096_addresses": chunks,
         "mc_addresses": chunks * 4096,
         "spec_mutant_refuted": True,
-        "design_conformance": {"deviations": n_dev, "samples": dev_samples,
+        "design_conformance": {"deviating_events": n_dev, "deviating_addresses": len(dev_values),
+                               "by_leading_text": dev_by_lead, "samples": dev_samples,
                                "meaning": "events where the code differs from the allocation schemes of "
                                           "Registration.tla without breaking C14 (never a verdict)"},
         "samples": samples,
